@@ -88,7 +88,14 @@ fn code_bytes(rng: &mut Rng, temps: &[Vec<u8>]) -> Vec<u8> {
 }
 
 pub fn emit_fuzz_case(rng: &mut Rng, temps: &[Vec<u8>], out: &mut Vec<String>) {
-    let bytes = code_bytes(rng, temps);
+    emit_fuzz_case_opt(rng, temps, out, true)
+}
+
+/// `pipes`: may the SYSCALL family register the pipe handler (its descriptor numbers are random by design: C20 leaves it out)
+pub fn emit_fuzz_case_opt(rng: &mut Rng, temps: &[Vec<u8>], out: &mut Vec<String>, pipes: bool) {
+    // one case in twelve is a SYSCALL with the built-in handlers registered and arguments near mapped memory
+    let sys_case = rng.chance(1, 12);
+    let bytes = if sys_case { vec![0x0f, 0x05] } else { code_bytes(rng, temps) };
     // code area: exactly the string, or the string followed by padding (so that a truncated tail decodes differently)
     let mut code = bytes.clone();
     if rng.chance(1, 3) {
@@ -145,6 +152,14 @@ pub fn emit_fuzz_case(rng: &mut Rng, temps: &[Vec<u8>], out: &mut Vec<String>) {
             }
         );
     }
+    if sys_case {
+        rv[0] = format!("{:x}", *rng.pick(&[0u64, 1, 12, 22, 60, 158, 22, 12, 0x1002, 0x1003, 2]));
+        if rng.chance(1, 2) {
+            // arch_prctl codes / small counts
+            rv[7] = format!("{:x}", *rng.pick(&[0x1001u64, 0x1002, 0x1003, 0x1004, 0, 1, 0xffff_ffff_ffff_fff8]));
+        }
+        rv[2] = format!("{:x}", *rng.pick(&[0u64, 1, 8, 0x40, 0x1000, 0x1001, u64::MAX]));
+    }
     rv.push(format!("{:x}", ip));
     out.push(format!("setregs {}", rv.join(",")));
     let flags = match rng.below(4) {
@@ -159,7 +174,16 @@ pub fn emit_fuzz_case(rng: &mut Rng, temps: &[Vec<u8>], out: &mut Vec<String>) {
     }
     let xv: Vec<String> = (0..16).map(|_| format!("{:x}", ((rng.val() as u128) << 64) | rng.val() as u128)).collect();
     out.push(format!("setxmms {}", xv.join(",")));
-    if rng.chance(1, 8) {
+    if sys_case {
+        let sets: &[&str] = if pipes { &["60,12,22,158", "22", "12", "158", "12,22", "60"] } else { &["60,12,158", "12", "158", "60,12", "60"] };
+        out.push(format!("syscalls {}", *rng.pick(sets)));
+        if rng.chance(1, 2) {
+            // a pipe to read from / write to: create it with a first syscall, then run the case's own
+            out.push("step".into());
+            out.push("state".into());
+            out.push(format!("setregs {}", rv.join(",")));
+        }
+    } else if rng.chance(1, 8) {
         out.push("syscalls 60,12,22,158".into());
     }
     out.push("step".into());
@@ -198,7 +222,7 @@ pub fn gen_c20(tier: &str, seed: u64, out: &mut Vec<String>) {
     let mut rng = Rng::new(seed ^ 0xC20);
     let n = if tier == "thorough" { 8_000 } else { 600 };
     for _ in 0..n {
-        emit_fuzz_case(&mut rng, &temps, &mut raw);
+        emit_fuzz_case_opt(&mut rng, &temps, &mut raw, false);
     }
     let sub = if tier == "thorough" { "thorough" } else { "quick" };
     gen_c11(sub, seed ^ 0x2011, &mut raw);
